@@ -293,6 +293,8 @@ def builds_expr_case(name, spec):
                 res["violations"].append({"key": f"expr:{name}:{scalar}:does-not-compile", "what": f"accepted expression produces C that gcc rejects: {err[:300]}",
                                           "replay": {"kind": "builds", "name": name, "options": opts, "expr": True}})
         res["samples"].append({"expression": name})
+    except RecursionError:
+        res["outside"].append(f"{name}: expression too deep (RecursionError inside UFL/FFCx lowering) - not analysed")
     except Exception as e:
         res["harness"].append(f"{name}: {type(e).__name__}: {e} {traceback.format_exc()[-600:]}")
     return res
